@@ -311,6 +311,22 @@ fn case_strings(t: &mut Tape, st: &mut Stats) -> Verdict {
             want
         }};
     }
+    if t.chance(1, 40) {
+        // indexes at the limits of the integer types: out of every text's domain, so the error result
+        let ext = ["-9223372036854775808", "-9223372036854775807", "9223372036854775807", "18446744073709551615", "-2147483648", "4294967296", "-9223372036854775809"];
+        let i = t.pick(&ext).to_string();
+        let args = if t.flip() { vec![a(&s), i.clone()] } else if t.flip() { vec![a(&s), i.clone(), t.pick(&ext).to_string()] } else { vec![a(&s), "0".to_string(), i.clone()] };
+        st.class("substring-index-at-an-integer-limit");
+        let r = match guarded(|| exec(&mut ctx, "substring", &args)) {
+            Ok(r) => r,
+            Err((m, l)) => return fail("C16/substring/panic", json!({"args": args, "panic": m, "location": l})),
+        };
+        // (an end index beyond the text is out of domain as well: the text is at most some hundred KiB long)
+        if !is_err(&r) && val(&r) != Some(Some("false".to_string())) {
+            return fail("C16/substring/out-of-domain-accepted", json!({"args": args, "got": show(&r)}));
+        }
+        return Verdict::Pass(Some(fp(&args)));
+    }
     let which = t.below(14);
     match which {
         0 | 1 => {
@@ -499,6 +515,27 @@ fn case_numbers(t: &mut Tape, st: &mut Stats) -> Verdict {
         }
         _ => a,
     };
+    // one pair in twenty is two ADJACENT doubles, each written in its shortest form that reads back exactly: different
+    // numbers, however close
+    if t.chance(1, 20) {
+        let x = f64::from_bits(0x3FB0_0000_0000_0000 + (t.raw() as u64) * 0x0000_0100_0001 % 0x0090_0000_0000_0000) * if t.flip() { -1.0 } else { 1.0 };
+        let y = f64::from_bits(x.to_bits() + 1 + t.below(2) as u64);
+        if x.is_finite() && y.is_finite() && x != y {
+            st.class("adjacent-doubles");
+            let (sx, sy) = (format!("{:?}", x), format!("{:?}", y));
+            for (cmd, want) in [("less_than", x < y), ("greater_than", x > y)] {
+                let r = exec(&mut ctx, cmd, &[sx.clone(), sy.clone()]);
+                if val(&r) != Some(Some(want.to_string())) {
+                    return fail(&format!("C16/{}/wrong-order", cmd), json!({"args": [sx, sy], "expected": want, "got": show(&r)}));
+                }
+                let r = exec(&mut ctx, cmd, &[sy.clone(), sx.clone()]);
+                if val(&r) != Some(Some((!want).to_string())) {
+                    return fail(&format!("C16/{}/wrong-order", cmd), json!({"args": [sy, sx], "expected": !want, "got": show(&r)}));
+                }
+            }
+            return Verdict::Pass(Some(fp(&(sx, sy))));
+        }
+    }
     let bad = t.chance(1, 12);
     let sa = spell(a, t);
     let sb = if bad { t.pick(&["x", "", "1,5", "0x10", "one", " 1"]).to_string() } else { spell(b, t) };
@@ -753,7 +790,7 @@ pub fn property() -> Property {
                     Tier::Thorough => Plan::Random { cases: 12_000_000, max_len: 80 },
                 },
                 case: case_strings,
-                min_classes: &[("multibyte-haystack", 10000), ("needle-longer-than-haystack", 1000), ("prefix-relation-checked", 2000), ("split-join-relation-checked", 2000), ("text-of-16-to-200-KiB", 500)],
+                min_classes: &[("multibyte-haystack", 10000), ("needle-longer-than-haystack", 1000), ("prefix-relation-checked", 2000), ("split-join-relation-checked", 2000), ("text-of-16-to-200-KiB", 500), ("substring-index-at-an-integer-limit", 2000)],
             },
             Section {
                 name: "numbers",
@@ -762,7 +799,7 @@ pub fn property() -> Property {
                     Tier::Thorough => Plan::Random { cases: 8_000_000, max_len: 20 },
                 },
                 case: case_numbers,
-                min_classes: &[("operands-differ-in-last-digit", 10000), ("non-numeric-operand", 1000), ("operands-of-tiny-magnitude", 10000), ("zero-against-zero-or-one", 2000)],
+                min_classes: &[("operands-differ-in-last-digit", 10000), ("non-numeric-operand", 1000), ("operands-of-tiny-magnitude", 10000), ("zero-against-zero-or-one", 2000), ("adjacent-doubles", 3000)],
             },
             Section {
                 name: "calc",
